@@ -1,5 +1,8 @@
 """Kernel specifications for C12 (rex/artificial.py: generated / augmented graphs).
 
+Parameter lists are supersets of the names an expression uses today (e.g. `ts_start` for `ts_next`), so that a
+realistic edit (ts_end -> ts_start, dropping the `skip` test) still extracts and it is a *theorem* that stops checking.
+
 Every arithmetic expression, comparison and masking `where` of the per-node scan (`step`), of the carried while-loop
 (`_scan_body_seq`) and of the edge post-processing in `episode` is regenerated into lean/RexModel/Gen/Generator.lean."""
 
@@ -18,18 +21,18 @@ KERNELS = {
     "Generator": [
         # ---- per-node scan
         dict(name="step_ts_start", file=ART, func=STEP, loc=("assign_unique", "ts_start"), params=["ts_prev"], props=P),
-        dict(name="step_ts_end", file=ART, func=STEP, loc=("assign_unique", "ts_end"), opaque={_SAMPLE_COMP: "delay"}, params=["ts_start", "delay"], props=P),
-        dict(name="step_ts_next", file=ART, func=STEP, loc=("assign_unique", "ts_next"), params=["ts_end", "ts_prev", "rate"], props=P),
-        dict(name="step_seq", file=ART, func=STEP, loc=("assign_unique", "seq"), result="IntSel", rename={"__ts_max": "ts_max"}, params=["ts_end", "ts_max", "i"], props=P),
+        dict(name="step_ts_end", file=ART, func=STEP, loc=("assign_unique", "ts_end"), opaque={_SAMPLE_COMP: "delay"}, params=["ts_prev", "ts_start", "delay"], props=P),
+        dict(name="step_ts_next", file=ART, func=STEP, loc=("assign_unique", "ts_next"), params=["ts_start", "ts_end", "ts_prev", "rate"], props=P),
+        dict(name="step_seq", file=ART, func=STEP, loc=("assign_unique", "seq"), result="IntSel", rename={"__ts_max": "ts_max"}, params=["ts_start", "ts_end", "ts_max", "i"], props=P),
         # ---- carried while loop of _scan_body_seq
         dict(name="while_seq_mod", file=ART, func=COND, loc=("assign_unique", "_seq_mod"), ty="Int", rename={"_seq": "seq_", "ts_start.shape[0]": "n"}, params=["seq_", "n"], props=P),
-        dict(name="while_is_larger", file=ART, func=COND, loc=("assign_unique", "is_larger"), result="Bool", rename={"ts_start[_seq_mod]": "t"},
+        dict(name="while_is_larger", file=ART, func=COND, loc=("assign_unique", "is_larger"), result="Bool", rename={"ts_start[_seq_mod]": "t"}, bools=["skip"],
              params=["skip", "t", "ts_recv"], props=P),
         dict(name="while_is_last", file=ART, func=COND, loc=("assign_unique", "is_last"), result="Bool", ty="Int", rename={"_seq": "seq_", "ts_start.shape[0]": "n"},
              params=["n", "seq_"], props=P),
         dict(name="while_cond", file=ART, func=COND, loc=("return", 0), result="Bool", params=["is_larger", "is_last"], props=P),
         dict(name="while_body", file=ART, func=WBODY, loc=("return", 0), ty="Int", rename={"_seq": "seq_"}, params=["seq_"], props=P),
-        dict(name="post_is_larger", file=ART, func=BODY, loc=("assign", "is_larger", 1), result="Bool", rename={"ts_start[seq]": "t"}, params=["skip", "t", "ts_recv"], props=P),
+        dict(name="post_is_larger", file=ART, func=BODY, loc=("assign", "is_larger", 1), result="Bool", rename={"ts_start[seq]": "t"}, bools=["skip"], params=["skip", "t", "ts_recv"], props=P),
         dict(name="post_seq_clipped", file=ART, func=BODY, loc=("assign_unique", "seq_clipped"), ty="Int", rename={"seq": "seq_"}, bools=["is_larger"],
              params=["is_larger", "seq_"], props=P),
         # ---- edge construction in `episode`
